@@ -653,7 +653,7 @@ func TestHedgedStats(t *testing.T) {
 	st := harness.NewStats("TestHedgedStats")
 	defer st.Flush()
 	// (IsHedge marking is named by both properties: it is reported by both checks)
-	rapid.Check(t, hedgeProperty("C17", "TestHedgedStats", st, func(s string) bool { return isStats(s) || s == "first-attempt-marking" }))
+	rapid.Check(t, hedgeProperty("C17", "TestHedgedStats", st, func(s string) bool { return isStats(s) || s == "first-attempt-marking" || s == "hedge-event" }))
 }
 
 func TestRegress(t *testing.T) {
